@@ -10,6 +10,7 @@ import (
 	"regexp"
 	"strings"
 	"testing"
+	"unicode"
 	"unicode/utf8"
 
 	xhtml "golang.org/x/net/html"
@@ -35,6 +36,31 @@ var govcTitleBody = strings.Repeat("<p>"+strings.Repeat("lorem ipsum dolor sit a
 var govcRxTitleSep = regexp.MustCompile(`(?i) [\|\-\\/>»] `)
 
 func govcNormSpace(s string) string { return strings.Join(strings.Fields(s), " ") }
+
+// govcC15SpaceDefect says what is wrong with the white space of a title ("" = nothing).
+func govcC15SpaceDefect(s string) string {
+	prevSpace := false
+	for i, r := range s {
+		switch {
+		case r == '\n' || r == '\r' || r == '\u2028' || r == '\u2029' || r == '\u0085' || r == '\v' || r == '\f':
+			return "contains a line break"
+		case r == '\t':
+			return "contains a tab"
+		}
+		sp := unicode.IsSpace(r)
+		if sp && i == 0 {
+			return "starts with white space"
+		}
+		if sp && prevSpace {
+			return "contains a run of blanks"
+		}
+		prevSpace = sp
+	}
+	if prevSpace {
+		return "ends with white space"
+	}
+	return ""
+}
 
 type govcTitleCase struct {
 	key, title, h1, meta string
@@ -64,8 +90,14 @@ func TestGovcTitleReplay(t *testing.T) {
 	evals, nontrivial := 0, 0
 	repeatChecked := 0
 	// eval runs one page: <title> text, heading markup (h1 is its text, "" when there is none) and markup metas.
-	eval := func(key, title, h1HTML, h1text, meta string) {
-		src := `<html><head><title>` + title + `</title>` + meta + `</head><body><div id="main">` + h1HTML + govcTitleBody + `</div></body></html>`
+	// evalX: titleHTML is what stands between <title> and </title> in the source, title the text it denotes (character
+	// references decoded); strict = the white-space clauses are checked to the letter (cases of the white-space section).
+	hygieneChecked, exactNormChecked := 0, 0
+	var eval func(key, title, h1HTML, h1text, meta string)
+	var evalX func(key, titleHTML, title, h1HTML, h1text, meta string, strict bool)
+	eval = func(key, title, h1HTML, h1text, meta string) { evalX(key, title, title, h1HTML, h1text, meta, false) }
+	evalX = func(key, titleHTML, title, h1HTML, h1text, meta string, strict bool) {
+		src := `<html><head><title>` + titleHTML + `</title>` + meta + `</head><body><div id="main">` + h1HTML + govcTitleBody + `</div></body></html>`
 		res, err := ApplyForReader(strings.NewReader(src), nil)
 		evals++
 		if err != nil {
@@ -97,9 +129,29 @@ func TestGovcTitleReplay(t *testing.T) {
 			}
 			// (3) exact when 15..150 characters and no separator pattern
 			n := utf8.RuneCountInString(title)
-			if n >= 15 && n <= 150 && !govcRxTitleSep.MatchString(title) && !strings.Contains(title, ": ") {
+			if !strict && n >= 15 && n <= 150 && !govcRxTitleSep.MatchString(title) && !strings.Contains(title, ": ") {
 				if govcNormSpace(got) != govcNormSpace(title) {
 					t.Errorf("GOVC-FAIL %s/exact :: title %q is not the <title> text %q (%d characters, no separator)", key, got, title, n)
+				}
+			}
+			if strict {
+				// (3') the same clause to the letter: length and separator are those of the WHITE-SPACE-NORMALISED text, and
+				// the result is that normalised text itself, not something that merely normalises to it
+				normTitle := govcNormSpace(title)
+				nn := utf8.RuneCountInString(normTitle)
+				if nn >= 15 && nn <= 150 && !govcRxTitleSep.MatchString(normTitle) && !strings.Contains(normTitle, ": ") {
+					exactNormChecked++
+					if strings.ReplaceAll(got, "\u00a0", " ") != normTitle {
+						t.Errorf("GOVC-FAIL %s/exact-normalised :: title %q is not the white-space-normalised <title> text %q (%d characters after normalisation, %d in the source, no separator); <title> in the source: %q", key, got, normTitle, nn, utf8.RuneCountInString(title), title)
+					}
+				}
+				// (5) whatever the title was taken from, it is a white-space-normalised text: no line breaks, no tabs,
+				// no runs of blanks, no leading or trailing blanks
+				if got != "" {
+					hygieneChecked++
+				}
+				if defect := govcC15SpaceDefect(got); defect != "" {
+					t.Errorf("GOVC-FAIL %s/whitespace :: title %q %s; the title is a white-space-normalised text; <title> in the source: %q", key, got, defect, title)
 				}
 			}
 		}
@@ -213,5 +265,89 @@ func TestGovcTitleReplay(t *testing.T) {
 			}
 		}
 	}
-	fmt.Printf("GOVC-CASES evaluations=%d distinct_nontrivial=%d rule=%s\n", evals, nontrivial, fmt.Sprintf("16 title shapes x {h1 same, same with split first word, other, none} x {with, without og:title}; plus 20 typographic titles (apostrophe variants U+2018/2019/02BB/02BC/ASCII alone, mixed, leading, elisions; curly/low quotes, guillemets, en/em dash, ellipsis, nbsp, soft hyphen, accents, primes; two with a site suffix) x {h1 same, split, in a link, other, none, re-typed with ASCII / right / no apostrophes / all-ASCII punctuation} x {no og:title, fixed, same text, ASCII-apostrophe variant}; distinct by construction; repetition is only demanded when the heading is character for character the chosen title (checked in Result.Text and Result.Node; measured: %d cases); non-trivial = non-empty <title>", repeatChecked))
+
+	// ---- raw white-space shapes of the <title> text x length classes (appended; the keys above are unchanged) ----
+	// Templates put the title on its own indented line, break it, align it with tabs; none of that is part of the
+	// title. Length (15..150) and separator are properties of the normalised text.
+	exactLen := func(n int) string { // a many-word title without separator whose normalised length is exactly n
+		base := strings.Repeat("harbour festival programme published with tall ships and evening concerts along the old quay ", 3)
+		b := []byte(base[:n])
+		if b[n-1] == ' ' {
+			b[n-1] = 's'
+		}
+		return string(b)
+	}
+	classes := []struct {
+		key   string
+		words string // the title as single-blank separated words
+	}{
+		{"2w-9c", "Short one"},
+		{"3w-14c", "Budget vote on"},
+		{"3w-15c", "Budget votes on"},
+		{"3w-17c", "Budget vote today"},
+		{"1w-21c", "Donaudampfschifffahrt"},
+		{"4w-32c", "Markets rally after announcement"},
+		{"5w-42c", "Harbour festival programme published today"},
+		{"9w-65c", "Harbour festival programme published with tall ships and concerts"},
+		{"9w-multibyte", "\u00dcberraschende Wende f\u00fcr B\u00fcrgermeister M\u00fcller \u00fcber \u00d6sterreichs gr\u00f6\u00dfte Stra\u00dfenbr\u00fccke"},
+		{"149c", exactLen(149)},
+		{"150c", exactLen(150)},
+		{"151c", exactLen(151)},
+		{"sep-dash-site", "Harbour festival programme published today - Estuary Courier"},
+		{"colon", "Opinion: the harbour festival programme is too long"},
+	}
+	type wsShape struct {
+		key  string
+		make func(words []string) (markup, text string)
+	}
+	same := func(s string) (string, string) { return s, s }
+	wsShapes := []wsShape{
+		{"compact", func(w []string) (string, string) { return same(strings.Join(w, " ")) }},
+		{"own-line", func(w []string) (string, string) { return same("\n    " + strings.Join(w, " ") + "\n  ") }},
+		{"own-line-tabs", func(w []string) (string, string) { return same("\n\t\t" + strings.Join(w, " ") + "\n\t") }},
+		{"own-line-crlf", func(w []string) (string, string) { return same("\r\n      " + strings.Join(w, " ") + "\r\n    ") }},
+		{"deep-indent", func(w []string) (string, string) {
+			return same("\n" + strings.Repeat(" ", 90) + strings.Join(w, " ") + "\n" + strings.Repeat(" ", 86))
+		}},
+		{"leading", func(w []string) (string, string) { return same("   " + strings.Join(w, " ")) }},
+		{"trailing", func(w []string) (string, string) { return same(strings.Join(w, " ") + "  \n") }},
+		{"break-inside", func(w []string) (string, string) {
+			h := (len(w) + 1) / 2
+			return same(strings.TrimSpace(strings.Join(w[:h], " ") + "\n        " + strings.Join(w[h:], " ")))
+		}},
+		{"word-per-line", func(w []string) (string, string) { return same("\n  " + strings.Join(w, "\n  ") + "\n") }},
+		{"double-blanks", func(w []string) (string, string) { return same(strings.Join(w, "  ")) }},
+		{"wide-gaps", func(w []string) (string, string) { return same(strings.Join(w, strings.Repeat(" ", 40))) }},
+		{"tabs", func(w []string) (string, string) { return same("\t" + strings.Join(w, "\t")) }},
+		{"nbsp", func(w []string) (string, string) { return same("\u00a0" + strings.Join(w, "\u00a0") + "\u00a0") }},
+		{"nbsp-entity", func(w []string) (string, string) {
+			return "&nbsp;" + strings.Join(w, "&nbsp; ") + "&nbsp;", "\u00a0" + strings.Join(w, "\u00a0 ") + "\u00a0"
+		}},
+		{"char-refs", func(w []string) (string, string) {
+			return "&#10;&#9;" + strings.Join(w, "&#32;&#x20;") + "&#13;&#10;", "\n\t" + strings.Join(w, "  ") + "\r\n"
+		}},
+	}
+	for _, cl := range classes {
+		words := strings.Fields(cl.words)
+		for _, sh := range wsShapes {
+			markup, text := sh.make(words)
+			for _, hd := range []string{"other", "none", "same-compact", "same-shaped"} {
+				h1, h1text := "", ""
+				switch hd {
+				case "other":
+					h1, h1text = "<h1>The Estuary Courier, independent since 1887</h1>", "The Estuary Courier, independent since 1887"
+				case "same-compact":
+					h1, h1text = "<h1>"+cl.words+"</h1>", cl.words
+				case "same-shaped":
+					if sh.key == "compact" {
+						continue
+					}
+					h1, h1text = "<h1>"+markup+"</h1>", text
+				}
+				evalX(fmt.Sprintf("ws-%s/len-%s/h1-%s", sh.key, cl.key, hd), markup, text, h1, h1text, "", true)
+			}
+		}
+	}
+	fmt.Printf("GOVC-INFO title white-space section: titles checked for white-space defects (non-empty result): %d, demanded to be exactly the normalised <title> text: %d\n", hygieneChecked, exactNormChecked)
+	fmt.Printf("GOVC-CASES evaluations=%d distinct_nontrivial=%d rule=%s\n", evals, nontrivial, fmt.Sprintf("16 title shapes x {h1 same, same with split first word, other, none} x {with, without og:title}; plus 20 typographic titles (apostrophe variants U+2018/2019/02BB/02BC/ASCII alone, mixed, leading, elisions; curly/low quotes, guillemets, en/em dash, ellipsis, nbsp, soft hyphen, accents, primes; two with a site suffix) x {h1 same, split, in a link, other, none, re-typed with ASCII / right / no apostrophes / all-ASCII punctuation} x {no og:title, fixed, same text, ASCII-apostrophe variant}; plus 15 raw white-space shapes of the <title> text (compact, on its own indented line with blanks / tabs / CRLF, 90 blanks of indentation, leading, trailing, a line break inside, one word per line, double blanks, 40-blank gaps, tabs, nbsp as character and as entity, character references for LF/TAB/CR/blank) x 14 length classes (2 words 9 characters, 3 words 14/15/17, one long word, 4, 5, 9 words, 9 multi-byte words, exactly 149/150/151 characters, a site suffix, a colon) x {h1 other, none, same text compact, same text same shape}: length and separator are judged on the normalised text, the result must BE the normalised text and have no line break, tab, run of blanks, leading or trailing blank; distinct by construction; repetition is only demanded when the heading is character for character the chosen title (checked in Result.Text and Result.Node; measured: %d cases); non-trivial = non-empty <title>", repeatChecked))
 }
